@@ -389,6 +389,9 @@ func (w *cliWorld) checkC05(final bool) {
 					reason = fmt.Sprintf("the channel ended (%s at #%d)", c.Kind, c.Begin)
 				}
 			}
+			if se := w.opSendFailedAt(op); se >= 0 && se < lastQ {
+				reason = fmt.Sprintf("the Send that carried it reported an error (#%d)", se)
+			}
 			if final {
 				reason = "the client has been closed"
 			}
@@ -414,22 +417,16 @@ func (w *cliWorld) checkC05(final bool) {
 		}
 		if isCtxErr {
 			cancelKind := op.CtxKind == 1 || op.CtxKind == 3 || op.CtxKind == 4
-			own := (cancelKind && op.Err == context.Canceled && ctxEnd <= op.Return) || (op.CtxKind == 2 && op.Err == context.DeadlineExceeded && ctxEnd <= op.Return)
+			own := (cancelKind && op.Err == context.Canceled && ctxEnd <= op.Return) || ((op.CtxKind == 2 || op.CtxKind == 5) && op.Err == context.DeadlineExceeded && ctxEnd <= op.Return)
 			if !own && !(op.Err == context.Canceled && stopped) {
 				r.Fail("wrong-outcome", "%s %d returned %v, but its context (kind %d) had not ended and the client had not stopped", op.Kind, op.Idx, op.Err, op.CtxKind)
 				return
 			}
 			// a reply that arrived before a quiescent point preceding the end of the context and any stop must win
-			q := op.Reqs[0]
-			for _, rep := range q.Replies {
-				if rep.Arrive < 0 {
-					continue
-				}
-				for _, qp := range w.qpoints {
-					if rep.Arrive < qp && qp <= ctxEnd && qp < fc {
-						r.Fail("wrong-outcome", "%s %d returned %v although reply %s had arrived at #%d, before the quiescent point #%d that precedes the end of its context (#%d)", op.Kind, op.Idx, op.Err, rep.Payload, rep.Arrive, qp, ctxEnd)
-						return
-					}
+			if op.Kind != oBatch {
+				if rep, qp := w.deliveredFirst(op.Reqs[0], ctxEnd, fc); rep != nil {
+					r.Fail("wrong-outcome", "%s %d returned %v although reply %s had arrived at #%d, before the quiescent point #%d that precedes the end of its context (#%d)", op.Kind, op.Idx, op.Err, rep.Payload, rep.Arrive, qp, ctxEnd)
+					return
 				}
 			}
 			continue
@@ -447,10 +444,16 @@ func (w *cliWorld) checkC05(final bool) {
 					r.Fail("wrong-outcome", "Batch %d: response for %s is neither a reply of the peer nor an error", op.Idx, q.Tag)
 					return
 				}
+				// the same for each entry of a batch: a reply delivered first wins,
+				// however long the batch then waits for its other entries
+				if rep, qp := w.deliveredFirst(q, ctxEnd, fc); rep != nil && len(w.byID[q.ID]) == 1 {
+					r.Fail("wrong-outcome", "Batch %d: response for %s is the error %q although reply %s had arrived at #%d, before the quiescent point #%d that precedes the end of the batch's context (#%d) and any stop", op.Idx, q.Tag, q.GotErr, rep.Payload, rep.Arrive, qp, ctxEnd)
+					return
+				}
 				if stopped || w.opSendFaulted(op) {
 					continue
 				}
-				own := ((op.CtxKind == 1 || op.CtxKind == 3 || op.CtxKind == 4) && q.GotCode == int(jrpc2.Cancelled)) || (op.CtxKind == 2 && q.GotCode == int(jrpc2.DeadlineExceeded))
+				own := ((op.CtxKind == 1 || op.CtxKind == 3 || op.CtxKind == 4) && q.GotCode == int(jrpc2.Cancelled)) || ((op.CtxKind == 2 || op.CtxKind == 5) && q.GotCode == int(jrpc2.DeadlineExceeded))
 				if !(ctxEnd <= op.Return && own) {
 					r.Fail("wrong-outcome", "Batch %d: response for %s is the error %q (code %d) although the peer sent no such reply, the client had not stopped, and it is not the error of the batch's context (kind %d, ended=%v)", op.Idx, q.Tag, q.GotErr, q.GotCode, op.CtxKind, ctxEnd <= op.Return)
 					return
@@ -466,6 +469,24 @@ func (w *cliWorld) checkC05(final bool) {
 	if final {
 		w.checkC05Final()
 	}
+}
+
+// deliveredFirst returns a reply to q that reached the client before a
+// quiescent point which itself precedes the end of the operation's context and
+// every stop cause (and that quiescent point): such a reply was delivered first.
+func (w *cliWorld) deliveredFirst(q *creq, ctxEnd, fc int) (*peerReply, int) {
+	for i := range q.Replies {
+		rep := &q.Replies[i]
+		if rep.Arrive < 0 || rep.Defect {
+			continue
+		}
+		for _, qp := range w.qpoints {
+			if rep.Arrive < qp && qp <= ctxEnd && qp < fc {
+				return rep, qp
+			}
+		}
+	}
+	return nil, 0
 }
 
 func (w *cliWorld) replyDelivered(op *cop) bool {
@@ -546,6 +567,14 @@ func (w *cliWorld) checkC05Final() {
 					continue
 				}
 				q.Cancels = w.cancelCount[q.ID]
+				ce := 1 << 30
+				if op.CancelSeq >= 0 {
+					ce = op.CancelSeq
+				}
+				if rep, qp := w.deliveredFirst(q, ce, w.firstCause()); rep != nil && q.Cancels != 0 {
+					r.Fail("oncancel-count", "OnCancel ran %d times for request %s (id %s), whose reply %s had been delivered (arrived #%d, quiescent #%d) before its context ended or the client stopped", q.Cancels, q.Tag, q.ID, rep.Payload, rep.Arrive, qp)
+					return
+				}
 				if q.Answered && q.Cancels != 0 {
 					r.Fail("oncancel-count", "OnCancel ran %d times for request %s (id %s), which was answered", q.Cancels, q.Tag, q.ID)
 					return
@@ -601,6 +630,31 @@ func (w *cliWorld) sendFaulted(tag string) bool {
 		}
 	}
 	return false
+}
+
+// opSendFailedAt returns the sequence number at which the Send call carrying
+// this operation's record returned an injected error (-1: it did not).
+func (w *cliWorld) opSendFailedAt(op *cop) int {
+	for _, k := range w.cEnd.FaultedSends {
+		if k-1 >= len(w.sent) {
+			continue
+		}
+		mine := false
+		for _, q := range op.Reqs {
+			if strings.Contains(w.sent[k-1].Raw, `"`+q.Tag+`"`) {
+				mine = true
+			}
+		}
+		if !mine {
+			continue
+		}
+		for seq, e := range w.r.Sim.Events {
+			if e.Kind == "ch.send.end" && e.Tag == "cli" && e.A == k {
+				return seq
+			}
+		}
+	}
+	return -1
 }
 
 // opSendFaulted: the Send of this operation's record failed.
